@@ -10,7 +10,8 @@ def PolOK (n : Nat) (pol : Policy) : Prop :=
     (∀ l, e.criteria = some l → ∀ c ∈ l, c < n) ∧ (∀ l, e.devCriteria = some l → ∀ c ∈ l, c < n) ∧
     (∀ d ∈ e.depCriteria, ∀ c ∈ d.2, c < n)
 
-theorem polOK_of_count {t : Table} {s : Store} (h : invalidCriteriaCount t s = 0) : PolOK t.n s.policy := by
+theorem polOK_of_count {t : Table} {s : Store} {locked : Bool} {mt : List (List Nat)}
+    (h : invalidCriteriaCount t s locked mt = 0) : PolOK t.n s.policy := by
   intro name ver e hg
   exact (policyEntryBad_eq_zero_iff t.n e).1 (policyBad_zero_get (invalidCriteriaCount_eq_zero h).2.1 hg)
 
@@ -96,7 +97,7 @@ theorem resolveRequirements_ok (g : DepGraph) (pol : Policy) (m : Mapper) (hn : 
 
 /-! ### `build` -/
 
-theorem mem_getL {β : Type} {k : Nat} {t : List (Nat × List β)} {a : β} (h : a ∈ getL k t) :
+theorem mem_getL_of {β : Type} {k : Nat} {t : List (Nat × List β)} {a : β} (h : a ∈ getL k t) :
     ∃ l, (k, l) ∈ t ∧ a ∈ l := by
   unfold getL at h
   cases hk : assoc? k t with
@@ -132,26 +133,26 @@ structure RefsOK (n : Nat) (s : Store) (name : Nat) : Prop where
   ex : ∀ x ∈ getL name s.exemptions, ∀ c ∈ x.criteria, c < n
 
 theorem refsOK_of_valid {t : Table} {s : Store} (hv : AllRefsValid t s) (name : Nat) : RefsOK t.n s name := by
-  obtain ⟨hc, htr, himp⟩ := hv
-  obtain ⟨hex, _, _, hla, hlw⟩ := invalidCriteriaCount_eq_zero hc
+  obtain ⟨hc, himp⟩ := hv
+  obtain ⟨hex, _, _, hla, hlw, htr, _, _⟩ := invalidCriteriaCount_eq_zero hc
   refine ⟨?_, ?_, ?_, ?_⟩
   · intro x hx
     rcases mem_allAudits hx with h | ⟨f, hf, h⟩
-    · obtain ⟨l, hl, ha⟩ := mem_getL h
+    · obtain ⟨l, hl, ha⟩ := mem_getL_of h
       exact hla _ hl _ ha
-    · obtain ⟨l, hl, ha⟩ := mem_getL h
+    · obtain ⟨l, hl, ha⟩ := mem_getL_of h
       exact (himp f hf).1 _ hl _ ha
   · intro x hx
     rcases mem_allWildcards hx with h | ⟨f, hf, h⟩
-    · obtain ⟨l, hl, ha⟩ := mem_getL h
+    · obtain ⟨l, hl, ha⟩ := mem_getL_of h
       exact hlw _ hl _ ha
-    · obtain ⟨l, hl, ha⟩ := mem_getL h
+    · obtain ⟨l, hl, ha⟩ := mem_getL_of h
       exact (himp f hf).2 _ hl _ ha
   · intro x hx
-    obtain ⟨l, hl, ha⟩ := mem_getL hx
+    obtain ⟨l, hl, ha⟩ := mem_getL_of hx
     exact htr _ hl _ ha
   · intro x hx
-    obtain ⟨l, hl, ha⟩ := mem_getL hx
+    obtain ⟨l, hl, ha⟩ := mem_getL_of hx
     exact hex _ hl _ ha
 
 theorem violationSets_ok (m : Mapper) (l : List Nat) (h : ∀ c ∈ l, c < m.n) :
